@@ -3,6 +3,11 @@
 import json, sys
 ALL = [f"C{i:02d}" for i in range(1, 21)]
 CLAIMED = {
+ "C04": dict(
+   technique="exhaustive small-scope enumeration plus random generation of pattern matrices against a brute-force value-enumeration oracle; differential run of accepted matches against first-match semantics",
+   text="Exploration. 20 catalogue types (sums, products in both groupings, unit, named fields, packages, recursive Nat/List, the empty type, nested mixes) x every list of <=3 rows over depth<=2 patterns (<=4 rows for small pattern sets in thorough), plus random composite types with rows from perturbed splitting partitions (depth<=4, <=14 rows), rendered as match, comatch argument patterns, or fn/let/do binders. Oracle: enumerate all values to depth max-pattern-depth+1 (canonical inhabitant below): accepted iff every value is matched; every reported CoveragePattern denotes an unmatched value; accepted rows run on <=48 enumerated values take the first matching row. Comatch: all arm sequences of length <=n+1 over 0-4 destructors: accepted iff each exactly once, reported missing/duplicate destructors truthful, each arm selected at run time.",
+   note="trusted base: matches/denotes/values in props/c04.rs (~150 lines); payload types inhabited; cases whose value space exceeds the enumeration cap are counted inconclusive; function parameters that open a package are rendered as let/match (the elaborator supports package-dependent parameters only at top level)",
+   ref="§3 C04"),
  "C03": dict(
    technique="derivation-aware mutation testing over generated core programs: the type-directed generator yields well-typed programs with their derivations; localized mutants carry a by-construction classification (definite error / type preserving) that the checker's verdict must match",
    text="Exploration. Per generated program (all type formers, both modes: checking sites under annotations, synthesis sites in heads/scrutinees) 10-16 mutants drawn over 16 site kinds x ~60 operators: value/computation of another type, near-miss annotations (other int width, product component changed/dropped/added/swapped, other declaration, Thk/Ret/arrow/forall changed), changed let/parameter/fix annotations, flipped binder kinds, ill-kinded type arguments and annotations, unknown constructors/destructors, eliminations at the wrong former, sort errors, sealed alias vs transparent alias, structural copies of sealed vs transparent declarations and near-miss copies, existential packages (abstract use, concrete use, escape, manifest, wrong witness, mode mismatch). Definite errors must be Rejected by the type checker with >=1 report (not accepted, not a panic, not an earlier phase); type-preserving edits and the unmutated program must be Checked.",
